@@ -2,6 +2,7 @@ import PqlModel.Props.C06
 import PqlModel.Props.C06Subst
 import PqlModel.Props.C14Order
 import PqlModel.Props.C06Operand
+import PqlModel.Props.C02EndToEndSource
 #print axioms Pql.C06.C06_shadow
 #print axioms Pql.C06.C06_other_binding_irrelevant
 #print axioms Pql.C06.C06_after_ignored
